@@ -8,7 +8,7 @@ the extracted model (`mx_refs`) in lock step and comparing, after every step, th
 trash/ and the root, the reference counts, the manifest state, the fragments on disk and the
 verifier's own manifest; verifier passes are also run as processes of their own and killed before
 each of their unlink system calls (strace), a reader's release is placed inside a compaction
-(hook), and store processes are killed inside their trash moves.  The direct oracle is the
+(hook), a compaction's pin inside a reader's release callback (sst point hook), and store processes are killed inside their trash moves.  The direct oracle is the
 property itself: after every step everything the manifest or a held snapshot names is in sst/,
 held cursors read their snapshot to the end, and after every reopen the store opens and reads
 back what was written."""
@@ -22,8 +22,8 @@ import vlib
 
 META = {
     "category": "proof",
-    "text": "Coq theorems (Refs/Props_C08.v, 9 theorems, closed under the global context) over an executable state-machine model of lsmtk's file life cycle (reference_counter.rs; explicit_ref/unref, release_sst, install_version, compaction_finish pin/link/apply/install/unpin, _ingest, from_manifest and cleanup_orphans of tree/mod.rs; open/recover/_memtable_thread of kvs/mod.rs; verify/process_one/possibly_complete_processing/verify_one's lists/added_after of verifier.rs; mani at the level of edits and fragments). For EVERY interleaving of the store's threads (opening thread, memtable thread, any number of compaction threads, any number of readers) one system call at a time, readers taking and releasing snapshots, compactions with any names (re-created setsums included), manifest roll-overs, the process dying between any two steps and reopening, and the verifier stepping, dying and restarting anywhere: every sst named by the committed manifest, the current version or a held snapshot is in sst/ (C08_needed_not_removed); reference counts are exact and a counted sst is in place; a log is in the trash only if it is empty or its sst was committed; the orphan scan never names a listed sst whatever fragments the verifier has removed, and open() finds every listed sst; the verifier unlinks only trash entries that the fragment named in its own manifest recorded, and no verifier activity touches sst/, the root's logs, the live manifest or the highest fragment. By incarnation the verifier property is refuted (known class K-verifier-by-name) and proved outside the class. The model is tied to the code by lock-step replay of real single-stepped histories on the extracted model, comparing directory contents, reference counts, manifest state, fragments and the verifier's manifest after every step; verifier passes are killed before each unlink (strace), a reader's release is placed inside a compaction (hook), store processes are killed inside their renames, physical entries are compared across reopens.",
-    "note": "Trusted: Coq kernel; extraction (ExtrOcamlBasic) + ocaml/refs driver; harness `c08` + lsmtk hooks (cfg blue_verif: single-step, dump, verif_refs, verif_snapshot, verif_set_point_hook); strace kill injection; checks/c08_run.py. Atomic in the model: Manifest::apply (C13), the critical section under the compaction mutex, inc_and/dec_and, the read-only part of process_one. Names and roll-overs are oracle inputs; sizes/contents are C01/C10's subject. Fixed in /repo for this property: a899047 (F5), 88180bd (pin compaction outputs), and by build-C04 bc4e529 (F17), 48c731b (F18). Known class K-verifier-by-name: trash entries are addressed by name, so an intent recorded before the store re-creates and re-removes the same setsum unlinks the later incarnation.",
+    "text": "Coq theorems (Refs/Props_C08.v, 12 theorems, closed under the global context) over an executable state-machine model of lsmtk's file life cycle (reference_counter.rs; explicit_ref/unref, release_sst, install_version, compaction_finish pin/link/apply/install/unpin, _ingest, from_manifest and cleanup_orphans of tree/mod.rs; open/recover/_memtable_thread of kvs/mod.rs; verify/process_one/possibly_complete_processing/verify_one's lists/added_after of verifier.rs; mani at the level of edits and fragments). For EVERY interleaving of the store's threads (opening thread, memtable thread, any number of compaction threads, any number of readers) one system call at a time, readers taking and releasing snapshots, compactions with any names (re-created setsums included), manifest roll-overs, the process dying between any two steps and reopening, and the verifier stepping, dying and restarting anywhere: every sst named by the committed manifest, the current version or a held snapshot is in sst/ (C08_needed_not_removed); reference counts are exact and a counted sst is in place; a log is in the trash only if it is empty or its sst was committed; the orphan scan never names a listed sst whatever fragments the verifier has removed, and open() finds every listed sst; the verifier unlinks only trash entries that the fragment named in its own manifest recorded, and no verifier activity touches sst/, the root's logs, the live manifest or the highest fragment. release_sst is also modelled at the grain of dec_and's decision and its callback (Refs/ModelLock.v: IDecToZero / IRenameToTrash with any thread in between): with the table lock held across the callback every such run ends in a state of the atomic model (C08_release_callback_under_table_lock_refines_atomic_release), so nothing needed is removed; with the callback run after the lock is given up the property is refuted (C08_needed_not_removed_refuted_without_lock_across_callback). By incarnation the verifier property is refuted (known class K-verifier-by-name) and proved outside the class. The model is tied to the code by lock-step replay of real single-stepped histories on the extracted model, comparing directory contents, reference counts, manifest state, fragments and the verifier's manifest after every step; verifier passes are killed before each unlink (strace), a reader's release is placed inside a compaction (hook), a compaction's pin of a re-created sst is placed inside the release callback of the same sst (sst point hook; the pin must wait for the rename, as ModelLock.fstep says), store processes are killed inside their renames, physical entries are compared across reopens.",
+    "note": "Trusted: Coq kernel; extraction (ExtrOcamlBasic) + ocaml/refs driver; harness `c08` + lsmtk hooks (cfg blue_verif: single-step, dump, verif_refs, verif_snapshot, verif_set_point_hook, verif_set_sst_point_hook, verif_compaction_select/perform); strace kill injection; checks/c08_run.py. Atomic in the model: Manifest::apply (C13), the critical section under the compaction mutex, inc_and, dec_and when its decrement is not the last (the last one is split in ModelLock.v), the read-only part of process_one, and VersionRef::drop's `Arc::strong_count == 1` test together with the drop of the Arc. The last hides a leak (seen by build-C04 and the auditor; not a removal, so not a C08 violation): explicit_unref returns early when strong_count != 1 and nobody retries, so two holders of the same old version (with >= 2 compaction threads, or a compaction and a reader) letting go at the same time can both return early; the version's ssts then stay in sst/ with their counts until the next open's cleanup_orphans, and a verifier pass before that open backs off on them. Names and roll-overs are oracle inputs; sizes/contents are C01/C10's subject. Fixed in /repo for this property: a899047 (F5), 88180bd (pin compaction outputs), and by build-C04 bc4e529 (F17), 48c731b (F18). Known class K-verifier-by-name: trash entries are addressed by name, so an intent recorded before the store re-creates and re-removes the same setsum unlinks the later incarnation.",
 }
 
 PROPS = "theories/Refs/Props_C08.v"
@@ -51,7 +51,7 @@ OPTION_ORDER = ["tiny-files", "recreate-live", "recreate", "default-limits", "re
 
 def gen_history(rng, n_ops, optname):
     """list of ops (JSON-able):
-       ['w', khex, vhex|None] ['flush'] ['compact', n] ['compact1'] ['hookcompact', r] ['reopen']
+       ['w', khex, vhex|None] ['flush'] ['compact', n] ['compact1'] ['hookcompact', r] ['racedrop', r] ['compact2', r] ['reopen']
        ['take', r, 'snap'|'cur'] ['drop', r] ['verify'] ['vkill', j] ['skill', j] ['reads']"""
     ops = []
     recreate = optname in ("recreate", "recreate-live")
@@ -72,7 +72,7 @@ def gen_history(rng, n_ops, optname):
         elif r < 70:
             ops.append(["compact", rng.choice([2, 8, 20, 40, 80])])
         elif r < 73:
-            ops.append(["hookcompact", rng.below(3)])
+            ops.append([rng.choice(["hookcompact", "hookcompact", "racedrop"]), rng.below(3)])
         elif r < 76:
             ops.append(["compact2", rng.below(3)])
         elif r < 80:
@@ -113,8 +113,10 @@ def gen_history_live(rng, n_ops):
                 ops.append(["flush"])
             elif r < 86:
                 ops.append(["compact", rng.choice([2, 8, 20, 40])])
-            elif r < 92:
+            elif r < 90:
                 ops.append(["compact2", rng.below(2)])
+            elif r < 92:
+                ops.append(["racedrop", rng.below(2)])
             elif r < 96:
                 ops.append(["take", rng.below(2), "snap"])
             else:
@@ -162,6 +164,8 @@ def run_history(c08_exe, mx_exe, optname, ops, tag, universe):
                     run.compact(hookdrop=r)
                 else:
                     run.compact()
+            elif kind == "racedrop":
+                run.racedrop(op[1])
             elif kind == "compact2":
                 for _ in range(6):
                     if not run.compact2(hookdrop=op[1]):
@@ -290,7 +294,7 @@ def run(chk):
 
     chk.coverage.update({
         "evaluations": len(cases), "distinct_nontrivial": len(shapes),
-        "rule": "random single-stepped histories under 5 option sets (one of them cuts compaction outputs where earlier files were cut, so setsums are re-created): puts/deletes, flushes, 1..40 compaction steps, reopens, snapshots and scan cursors held across retirements and released later, a reader's release placed between a compaction's hard_link and its manifest edit (hook), two or three compactions selected together (as by several compaction threads) with the whole perform phase of one placed between another's linking of its outputs and its manifest edit, phases separated by pairs of reopens with the manifest rolling over on open only (re-created setsums stay in the live MANIFEST while the verifier reads older fragments), complete verifier passes, verifier passes in their own process killed before their j-th unlink (strace), store processes killed at their j-th rename; corpus first; non-trivial = at least 2 flushes, 1 merging/GC compaction and 1 snapshot or verifier pass; distinct = distinct op lists",
+        "rule": "random single-stepped histories under 5 option sets (one of them cuts compaction outputs where earlier files were cut, so setsums are re-created): puts/deletes, flushes, 1..40 compaction steps, reopens, snapshots and scan cursors held across retirements and released later, a reader's release placed between a compaction's hard_link and its manifest edit (hook), a selected compaction performed on a second thread while a reader lets go of a snapshot, held before it pins an output that only the snapshot references and let go from inside the release callback of that sst (racedrop), two or three compactions selected together (as by several compaction threads) with the whole perform phase of one placed between another's linking of its outputs and its manifest edit, phases separated by pairs of reopens with the manifest rolling over on open only (re-created setsums stay in the live MANIFEST while the verifier reads older fragments), complete verifier passes, verifier passes in their own process killed before their j-th unlink (strace), store processes killed at their j-th rename; corpus first; non-trivial = at least 2 flushes, 1 merging/GC compaction and 1 snapshot or verifier pass; distinct = distinct op lists",
         "samples": [cases[ncorpus][2][:14] if len(cases) > ncorpus else [], cases[-1][2][:14]],
         "input_distribution": totals, "corpus_cases": ncorpus, "option_sets": sorted(OPTION_SETS),
         "traces_validated_against_impl": len(cases) - len(mach_bad),
